@@ -983,9 +983,8 @@ func (i *Interp) callUser(f *ast.Node, args []V) (ret V) {
 func (i *Interp) match(n *ast.Node) V {
 	sp := i.place(n.C[0], false)
 	subj := sp.value()
-	if subj.K == KUnset {
-		un("match on an unset value")
-	}
+	// (an unset subject: == is false against every literal (3.6), so only an
+	// identifier matches it)
 	for ci, cs := range n.C[1:] {
 		np := cs.N
 		for pi, pat := range cs.C[:np] {
@@ -1026,7 +1025,7 @@ func (i *Interp) matchPat(v V, pat *ast.Node, binds map[string]V) bool {
 	case "num", "str", "true", "false", "null":
 		lit := i.eval(pat)
 		if v.K == KUnset {
-			un("unset value against a literal pattern")
+			return false
 		}
 		return Compare3(v, lit) == 0
 	case "id":
